@@ -231,7 +231,10 @@ fn path_from_args(
             // Only sexp in scope.
             let atom = allocator.atom(sexp);
             let v = path_value(atom.as_ref());
-            if v <= bi_one() {
+            if v == bi_zero() {
+                // The all-zero path is nil whatever the arguments are.
+                Ok(NodePtr::NIL)
+            } else if v == bi_one() {
                 Ok(new_args)
             } else {
                 let sexp = allocator.new_atom(&u8_from_number(v.clone() >> 1).to_vec())?;
